@@ -46,7 +46,7 @@ TSetupBegin == IsEvent("SetupBegin") /\ Step /\ Sync(<<>>) /\ seen' = <<>> /\ ex
 TSetupBuilt == IsEvent("SetupBuilt") /\ Step /\ Sync(Strip(PSetup(Tr[l].L, st.sext, st.sfmg)))
                /\ seen' = <<>> /\ exp' = <<>> /\ st' = [st EXCEPT !.L = Tr[l].L] /\ UNCHANGED fm
 \* an exception ends the call: what was executed so far is a prefix of a program; a rejected setup() leaves the object as it was
-TSetupThrew == IsEvent("SetupThrew") /\ Step /\ (\E LL \in 2..12 : IsPrefix(seen, Strip(PSetup(LL, st.sext, st.sfmg))))
+TSetupThrew == IsEvent("SetupThrew") /\ Step /\ (\E LL \in 2..16 : IsPrefix(seen, Strip(PSetup(LL, st.sext, st.sfmg))))
                /\ seen' = <<>> /\ exp' = <<>> /\ UNCHANGED <<st, fm>>
 TSolveThrew == IsEvent("SolveThrew") /\ Step /\ seen' = <<>> /\ exp' = <<>> /\ st' = [st EXCEPT !.insolve = FALSE] /\ fm' = NoFm
 
@@ -77,7 +77,7 @@ TOp == /\ IsEvent("Op") /\ Step
        /\ LET o == <<Tr[l].op, Tr[l].l, Tr[l].a, Tr[l].b, Tr[l].c>>
               n == Len(seen) + 1
           IN /\ (n <= Len(exp) => exp[n] = o)
-             /\ n <= Len(exp) + 12
+             /\ n <= Len(exp) + 64
              /\ seen' = Append(seen, o)
        /\ UNCHANGED <<exp, st, fm>>
 
@@ -89,5 +89,5 @@ NotAccepted == l <= N
 ASSUME TLCSet(1, 0)
 Progress == IF TLCGet(1) < l THEN TLCSet(1, l) /\ PrintT(<<"@@L", l>>) ELSE TRUE
 \* instructions never pile up beyond what any marker could explain
-Bounded == Len(seen) <= Len(exp) + 12
+Bounded == Len(seen) <= Len(exp) + 64
 =============================================================================
